@@ -30,7 +30,12 @@
                 A message delivered while the previous one on c has got neither
                 a dispatch nor a rejection nor a response is a continuation of
                 it (the bytes are one message for the component).
-     k="req"    a `request` event for connection c was dispatched
+                pr = "METHOD target" of the request the message asks for, when that
+                is beyond doubt (unmodified base requests, their prefixes and
+                remainders), else "";
+                wf = "unsup": a request of another major HTTP version
+     k="req"    a `request` event for connection c was dispatched (pr = "METHOD
+                target" of the request object handed to the application)
      k="rej"    an `httperror` event for connection c was dispatched
                 (st = its status code): the component, the dispatcher or the
                 application refuses the message
@@ -75,7 +80,8 @@ C0 == [ph     |-> "none",  \* none | idle | recv | disp | rej      (of the curre
        closed |-> FALSE,   \* the component fired close(sock)
        gone   |-> FALSE,   \* disconnect(sock) was delivered
        peer   |-> FALSE,   \* ... because the peer hung up
-       wf     |-> ""]      \* well-formedness of the current message
+       wf     |-> "",      \* well-formedness of the current message
+       want   |-> ""]      \* the request the current message asks for ("" = no claim)
 
 P0 == [c \in ConnIds |-> C0]
 
@@ -99,6 +105,9 @@ Fail(P, ln) ==
          IF S.peer THEN ""
          ELSE IF S.ph = "rej" THEN "C14.dispatch_after_reject"
          ELSE IF S.ph = "disp" /\ S.nresp >= 1 /\ S.lastst >= 400 THEN "C14.dispatch_after_reject"
+         ELSE IF S.want # "" /\ ln.pr # S.want THEN "C14.wrong_request"
+              \* the request event is not for the message that was received (method / target
+              \* of an earlier message of the connection)
          ELSE ""
     [] ln.k = "resp" ->
          IF S.peer THEN ""            \* written to a peer that is gone: nobody sees it
@@ -111,6 +120,13 @@ Fail(P, ln) ==
               \* already answered message answered again)
          ELSE IF ln.pr # "ok" THEN "C14.invalid_response"
          ELSE IF S.ph \in {"rej", "recv"} /\ S.wf = "mal" /\ ln.st < 300 THEN "C14.invalid_response"
+         ELSE IF S.wf = "unsup" /\ ln.st < 400 THEN "C14.invalid_response"
+              \* unsupported input (another major HTTP version) is to be refused with 4xx/5xx,
+              \* however lenient the parser is
+         ELSE IF S.wf = "good" /\ S.ph \in {"rej", "recv"} /\ ln.st >= 400 THEN "C14.error_for_wellformed"
+              \* 4xx/5xx are for malformed or unsupported input: a complete well-formed request
+              \* (in one piece or cut anywhere and completed) that was not even dispatched is
+              \* answered with an error
          ELSE ""
     [] ln.k = "close" ->
          IF S.gone THEN ""
@@ -129,9 +145,10 @@ Apply(P, ln) ==
     [] ln.k = "in" ->
          IF S.ph = "recv" /\ S.nresp = 0
          THEN \* continuation of a message that is still being received
-              [P EXCEPT ![ln.c].wf = IF ln.cls = "Rest" /\ S.wf = "partial" THEN "good" ELSE "hostile"]
+              [P EXCEPT ![ln.c].wf = IF ln.cls = "Rest" /\ S.wf = "partial" THEN "good" ELSE "hostile",
+                        ![ln.c].want = IF ln.cls = "Rest" /\ S.wf = "partial" /\ ln.pr = S.want THEN S.want ELSE ""]
          ELSE [P EXCEPT ![ln.c].ph = "recv", ![ln.c].nresp = 0, ![ln.c].sc = FALSE,
-                        ![ln.c].lastst = 0, ![ln.c].wf = ln.wf]
+                        ![ln.c].lastst = 0, ![ln.c].wf = ln.wf, ![ln.c].want = ln.pr]
     [] ln.k = "req" -> IF S.ph = "recv" THEN [P EXCEPT ![ln.c].ph = "disp"] ELSE P
     [] ln.k = "rej" -> IF S.ph = "recv" THEN [P EXCEPT ![ln.c].ph = "rej"] ELSE P
     [] ln.k = "resp" -> [P EXCEPT ![ln.c].nresp = @ + 1, ![ln.c].sc = ln.sc, ![ln.c].lastst = ln.st]
